@@ -146,13 +146,17 @@ def pushCells (A : Arith α) (k : Nat) : Nat → CT α → α → α → List (C
     costs more than 1 apart are separated long before) -/
 def pushFuel : Nat := 4096
 
+/-- `if self.mini is None: self.mini = element.cost; self.start = self.mini; self.n = 0` -/
+def Q.anchor (q : Q α) (c : α) : Q α :=
+  match q.mini with
+  | none => { q with mini := some c, start := some c, n := 0 }
+  | some _ => q
+
 /-- `push(element)` (constant_delay_queue.py:66-79); `none` = AssertionError / ZeroDivisionError.
     `asserts = false` is the code without the `assert` statement (`python -O`): used by the driver to
     tell an AssertionError from any other undefined run. -/
 def Q.push (A : Arith α) (q : Q α) (e : CT α) (asserts : Bool := true) : Option (Q α) :=
-  let q1 : Q α := match q.mini with
-    | none => { q with mini := some e.cost, start := some e.cost, n := 0 }
-    | some _ => q
+  let q1 : Q α := q.anchor e.cost
   match q1.mini with
   | none => none
   | some mini =>
@@ -174,7 +178,7 @@ mutual
     | [] => none
     | .empty :: rest => firstList rest
     | .leaf ct :: _ => some ct
-    | .node n sub :: _ => if n ≤ 1 then none else firstList sub
+    | .node n sub :: _ => firstCell (.node n sub)
 end
 
 /- `__pop__(cell)` followed by `__cleanup__(cells, index)` of the caller
